@@ -63,6 +63,12 @@ func main() {
 		res := fw.RunCase(p, os.Args[3], mustSeed(os.Args[4]), n, nil, true)
 		b, _ := json.Marshal(res)
 		fmt.Println(string(b))
+	case "digest": // digest <PROP> <tier> <seed> <from> <to>
+		p := mustProp(os.Args[2])
+		selfCheck()
+		a, _ := strconv.Atoi(os.Args[5])
+		b, _ := strconv.Atoi(os.Args[6])
+		fw.PrintDigests(p, os.Args[3], mustSeed(os.Args[4]), a, b)
 	case "replay":
 		os.Exit(replay(os.Args[2]))
 	case "list":
